@@ -103,10 +103,26 @@ type WGenCmt struct {
 	Audit     WGenCmtInner `sql:"embedded_prefix:audit_"`
 }
 
+// seeded change C06-q: a composite index inside a struct embedded with a prefix: the index name joins the column names as
+// written in the tag
+type WEmbCompInner struct {
+	Actor  string `sql:"index_columns:audit_actor,audit_action"`
+	Action string
+	Zone   string `sql:"index:audit_zone,audit_actor"`
+}
+
+type WEmbComp struct {
+	ID    int           `sql:"primary_key"`
+	Audit WEmbCompInner `sql:"embedded_prefix:audit_"`
+}
+
 var my = structCfg{dialect: "mysql", tagKey: "sql"}
 var myCmt = structCfg{dialect: "mysql", tagKey: "sql", comment: true}
 
 var witnessCases = []structCase{
+	{id: "wst-composite-index-in-prefixed-embedded", cfg: my, obj: WEmbComp{},
+		decl:   `(decl "WEmbComp" "" ((field "ID" int "int" "primary_key") (field "Audit" (struct ((field "Actor" string "string" "index_columns:audit_actor,audit_action") (field "Action" string "string" "") (field "Zone" string "string" "index:audit_zone,audit_actor"))) "WEmbCompInner" "embedded_prefix:audit_")))`,
+		expect: `(expect "w_emb_comp" ((col "id" "INT" ("pk") true) (col "audit_actor" "TEXT" () false) (col "audit_action" "TEXT" () false) (col "audit_zone" "TEXT" () false)) ((idx "idx_audit_actor_audit_action" ("audit_actor" "audit_action") false "") (idx "idx_audit_zone_audit_actor" ("audit_zone" "audit_actor") false "")) () ())`},
 	{id: "wst-generated-comments-in-prefixed-embedded", cfg: myCmt, obj: WGenCmt{},
 		decl:   `(decl "WGenCmt" "" ((field "ID" int "int" "primary_key") (field "CreatedAt" string "string" "") (field "Audit" (struct ((field "ID" int "int" "") (field "CreatedAt" string "string" "") (field "Note" string "string" ""))) "WGenCmtInner" "embedded_prefix:audit_")))`,
 		expect: `(expect "w_gen_cmt" ((col "id" "INT" ("pk") true) (col "created_at" "TEXT" () false) (col "audit_id" "INT" ("comment:audit id") false) (col "audit_created_at" "TEXT" ("comment:audit created at") false) (col "audit_note" "TEXT" ("comment:audit note") false)) () () ())`},
